@@ -9,6 +9,11 @@ CLAIMED = {
 		text='Every obligation (pre@call, post, loop invariant init/preservation, variant, exception-freedom) generated from the current source of the block-splitting helpers is discharged for all inputs; the quote-domination part of the no-cut-inside-quotes law is a labelled bounded stand-in.',
 		note='pyvc encoding of the Python subset; z3/cvc5 soundness; spec functions in specs/brackets.py are the oracle; bounded parts listed in evidence.bounded_checks',
 		ref='DESIGN.md §4 C18'),
+	'C04': dict(
+		level='proof',
+		text='Proved for all inputs, at the level of the session tables: Entrypoints.load/unload, Modules.load (with its recursive loading of libraries and imports) / unload, NodeResolver.resolve/clear, Memo.get, Memoize.get and the SymbolDB operations are maps with exact frames - a look-up of something present returns the stored object and changes nothing, loading adds only the requested entries and never replaces a loaded module, entry point, node instance or memoised value, unloading removes exactly the requested entry; under a memo key the first factory decides the value. The statement itself (every transpile inside any history equals the fresh-process result, for every hash seed) is a labelled bounded twin on the real pipeline.',
+		note='loaders, constructors, match_feature, factories assumed to touch the tables only through the contracted operations; determinism between the tables (inference, templates, iteration orders) bounded only',
+		ref='DESIGN.md §4 C04, §9'),
 	'C05': dict(
 		level='proof',
 		text='Proved for all inputs: storing and restoring symbols are both gated on CacheSetting.enabled (no symbols file is read or written with caching disabled), the disabled proxy only runs the factory, the enabled proxy returns the file under the key\'s path or the factory value, and the symbol-cache key is an injective function of the ordered content hashes of the module and its direct imports. The whole-history statement (warm == cold over edit/run/clear histories, truncated cache files) is a bounded pipeline twin on the real CLI, never counted as proved; the transitive-import case is known finding F-C05-a.',
